@@ -86,6 +86,14 @@ CHILD = textwrap.dedent('''
             yield r
         if fail_at is not None and fail_at == -1 - 0 and False:
             raise RuntimeError('injected')
+    rowstop_at = fail_at[1] if isinstance(fail_at, (list, tuple)) and fail_at[0] == 'rowstop' else None
+    rcount = [0]
+    def rowstep(row):
+        # a row-level step before the checkpoint; for rowstop it fails with StopIteration (an un-defaulted next() on an
+        # exhausted iterator), which must fail the run like any other exception
+        if rowstop_at is not None and rcount[0] == rowstop_at:
+            raise StopIteration('side iterator exhausted')
+        rcount[0] += 1
     stop_at = fail_at[1] if isinstance(fail_at, (list, tuple)) and fail_at[0] == 'stop' else None
     def stopper(rows):
         # a step placed after the checkpoint that stops reading each resource after stop_at rows
@@ -106,7 +114,7 @@ CHILD = textwrap.dedent('''
             srcs = []
             for i, rows in enumerate(pkg):
                 srcs.append((failing_source(rows) if i == 0 and src_at is not None else rows) if rows else [])
-            flow = Flow(*[s for s in srcs if True], up, tail, checkpoint('c', checkpoint_path=%(dir)r), down, stopper) if pkg else Flow(up, tail, checkpoint('c', checkpoint_path=%(dir)r))
+            flow = Flow(*[s for s in srcs if True], rowstep, up, tail, checkpoint('c', checkpoint_path=%(dir)r), down, stopper) if pkg else Flow(up, tail, checkpoint('c', checkpoint_path=%(dir)r))
             if retry_at is not None:
                 # the same Flow object is run again after a failed first attempt (a retry loop)
                 try:
@@ -218,7 +226,7 @@ def run_impl(case):
     with ThreadPoolExecutor(max_workers=12) as ex:
         if case['kind'] == 'crash':
             # steps before the checkpoint at every row and at exhaustion; a step after it at every row
-            points = list(range(nrows)) + ['end'] + [['down', k] for k in range(nrows)] + [['retry', k] for k in range(nrows)] + [['retry2', k] for k in range(1, nrows)] + [['stop', k] for k in (0, 1)]
+            points = list(range(nrows)) + ['end'] + [['down', k] for k in range(nrows)] + [['retry', k] for k in range(nrows)] + [['retry2', k] for k in range(1, nrows)] + [['stop', k] for k in (0, 1)] + [['rowstop', k] for k in range(nrows)]
         else:
             points = case['points']
         out['fails'] = list(ex.map(one_fail, points))
